@@ -1460,7 +1460,9 @@ def checkpoint(
 
     @functools.partial(
       jax.remat,
-      concrete=concrete,
+      # ``concrete`` was removed from ``jax.remat`` in newer JAX versions,
+      # only forward it when the user actually set it.
+      **({'concrete': concrete} if concrete else {}),
       static_argnums=static_argnums_,
       prevent_cse=prevent_cse,
       policy=policy,
